@@ -72,7 +72,13 @@ func lcStoreRace(r *Run) {
 			r.Violate(fmt.Sprintf("UpdateAccount failed: %v / %v", err1, err2), "C08/harness", i)
 			return
 		}
-		got, _ := e.db.Account(k.key.PubKey)
+		got, gerr := e.db.Account(k.key.PubKey)
+		if gerr != nil {
+			r.Count("oracle/violation")
+			r.Violate(fmt.Sprintf("the record written by two overlapping updates (round %d, state %v) cannot be read back: %v",
+				i, st, gerr), "C08/record-unreadable", i)
+			return
+		}
 		if got.State != st || got.HeightHint != hint || got.Value != val {
 			r.Count("oracle/violation")
 			r.Violate(fmt.Sprintf("two overlapping updates of one account (round %d): state:=%v by one writer, "+
